@@ -9,6 +9,25 @@ from . import common
 LEDGER = {"C01", "C02", "C03", "C04", "C05", "C06", "C07", "C08", "C09", "C10"}
 
 
+def _load_evidence(prop):
+    import json
+
+    with open(os.path.join(common.EVIDENCE, f"{prop}.json"), encoding="utf-8") as f:
+        return json.load(f)
+
+
+def _merge_evidence(prop, tier, ev1, ev2):
+    c1, c2 = ev1["coverage"], ev2["coverage"]
+    cov = {k: c1[k] + c2[k] for k in ("states", "transitions", "traces_validated_against_impl", "evaluations", "distinct_nontrivial")}
+    cov["samples"] = c1["samples"][:1] + c2["samples"][:1]
+    cov["rule"] = "API level: " + c1["rule"] + " || CLI level: " + c2["rule"]
+    cov["exhaustive"] = bool(c1.get("exhaustive") and c2.get("exhaustive"))
+    cov["api_level"] = {k: v for k, v in c1.items() if k not in ("samples", "rule")}
+    cov["cli_level"] = {k: v for k, v in c2.items() if k not in ("samples", "rule")}
+    common.write_evidence(prop, tier, "model_checking", cov, ev1["wall_s"] + ev2["wall_s"], ev1.get("violations", 0) + ev2.get("violations", 0),
+                          sorted(set(ev1["assumptions"]) | set(ev2["assumptions"])))
+
+
 def main():
     ap = argparse.ArgumentParser()
     ap.add_argument("prop")
@@ -20,10 +39,26 @@ def main():
             from . import ledger_main
 
             rc = ledger_main.replay(a.prop, a.replay) if a.replay else ledger_main.run(a.prop, a.tier)
-        elif a.prop in ("C11", "C12"):
+        elif a.prop == "C11":
             from . import sheet_main
 
             rc = sheet_main.replay(a.prop, a.replay) if a.replay else sheet_main.run(a.prop, a.tier)
+        elif a.prop == "C12":
+            from . import run_main, sheet_main
+
+            if a.replay:
+                rc = run_main.replay(a.prop, a.replay) if '"trace"' in open(a.replay, encoding="utf-8").read()[:4000] else sheet_main.replay(a.prop, a.replay)
+            else:
+                rc1 = sheet_main.run("C12", a.tier)      # API level: every fault at every row / field position
+                ev1 = _load_evidence("C12")
+                rc2 = run_main.run("C12", a.tier)        # CLI level: exit status, error message, no report
+                ev2 = _load_evidence("C12")
+                _merge_evidence("C12", a.tier, ev1, ev2)
+                rc = max(rc1, rc2)
+        elif a.prop in ("C16", "C17", "C18"):
+            from . import run_main
+
+            rc = run_main.replay(a.prop, a.replay) if a.replay else run_main.run(a.prop, a.tier)
         else:
             common.die_machinery(f"no check for {a.prop}")
     except common.MachineryError as exc:
